@@ -282,10 +282,10 @@ def attach_all(run, rt):
     from cnvlib.cnary import CopyNumArray as CNA
     import cnvlib.reports as R
     import cnvlib.commands as K
-    traced = [("cnary.by_gene", CNA.by_gene), ("gary._get_gene_map", CNA._get_gene_map), ("reports.group_by_genes", R.group_by_genes),
-              ("reports.gene_metrics_by_gene", R.gene_metrics_by_gene), ("reports.gene_metrics_by_segment", R.gene_metrics_by_segment),
-              ("reports.get_gene_intervals", R.get_gene_intervals), ("reports.get_breakpoints", R.get_breakpoints),
-              ("reports.do_genemetrics", R.do_genemetrics), ("cnary.squash_genes", CNA.squash_genes)]
+    traced = [("cnary.by_gene", rt.opt(CNA, "by_gene")), ("gary._get_gene_map", rt.opt(CNA, "_get_gene_map")), ("reports.group_by_genes", rt.opt(R, "group_by_genes")),
+              ("reports.gene_metrics_by_gene", rt.opt(R, "gene_metrics_by_gene")), ("reports.gene_metrics_by_segment", rt.opt(R, "gene_metrics_by_segment")),
+              ("reports.get_gene_intervals", rt.opt(R, "get_gene_intervals")), ("reports.get_breakpoints", rt.opt(R, "get_breakpoints")),
+              ("reports.do_genemetrics", rt.opt(R, "do_genemetrics")), ("cnary.squash_genes", rt.opt(CNA, "squash_genes"))]
     rt.attach(CNA, "by_gene", name="CopyNumArray.by_gene", pre=pre_by_gene, post=post_by_gene, generator=True)
     rt.attach(R, "do_genemetrics", name="reports.do_genemetrics", pre=pre_genemetrics, post=post_genemetrics, also=[(K, "do_genemetrics")])
     rt.attach(R, "do_breaks", name="reports.do_breaks", pre=pre_breaks, post=post_breaks, also=[(K, "do_breaks")])
